@@ -326,6 +326,7 @@ func newStats() *Stats {
 }
 
 type World struct {
+	holey    map[int]bool // columns seeded without any value in some block
 	stepMu   sync.Mutex
 	doing    string
 	rng      *Rng
@@ -361,6 +362,7 @@ type Profile struct {
 	TallPct     int
 	SchemaPct   int // chance of a schema step between transactions
 	LateIdxPct  int // chance of creating indexes right after the seeded rows
+	DenseFirstPct int // given a dense block: chance that it is the first instead of the last
 	RestorePct  int
 	ReplicaPct  int
 	AbortPct    int
@@ -767,7 +769,7 @@ func coqWrites(ws []wr) string {
 	return "[" + strings.Join(out, "; ") + "]"
 }
 
-var keyAlphabet = []string{"k1", "k2", "k3", "k4", "k5", "k6"}
+var keyAlphabet = []string{"k1", "k2", "k3", "k4", "k5", "k6", ""}
 
 // keyOffset looks the key up in the collection's current lookup table (transactions nested in
 // one another change it between two statements of the outer one)
@@ -859,6 +861,22 @@ func (g *txnGen) liveOffsets() []uint32 {
 
 func (g *txnGen) pickTarget() (uint32, bool) {
 	live := g.liveOffsets()
+	if len(live) > 2000 && g.w.rng.Chance(90) {
+		// a completely full block dominates the live rows: prefer the rows of the other blocks
+		per := map[uint32]int{}
+		for _, o := range live {
+			per[o>>14]++
+		}
+		var sparse []uint32
+		for _, o := range live {
+			if per[o>>14] < 2000 {
+				sparse = append(sparse, o)
+			}
+		}
+		if len(sparse) > 0 {
+			return sparse[g.w.rng.Intn(len(sparse))], true
+		}
+	}
 	n := len(live) + len(g.own)
 	if n == 0 {
 		return 0, false
@@ -1381,15 +1399,21 @@ func (g *txnGen) doAggregate(txn *column.Txn) {
 		return
 	}
 	col := nums[w.rng.Intn(len(nums))]
+	for _, c := range nums { // prefer a column that is empty in one of the seeded blocks
+		if w.holey[c.ID] && w.rng.Chance(50) {
+			col = c
+			break
+		}
+	}
 	if col.K.IntFloat() {
 		g.doFloatAggregate(txn, col)
 		return
 	}
 	sum, min, max, okMin, okMax := aggregate(txn, col)
-	switch w.rng.Intn(3) {
+	switch w.rng.Intn(5) {
 	case 0:
 		g.stmt("sum", fmt.Sprintf("STerm (TSum %d)", col.ID), fmt.Sprintf("RNum %d true", sum))
-	case 1:
+	case 1, 2:
 		g.stmt("min", fmt.Sprintf("STerm (TMin %d %v)", col.ID, col.K.Signed()), fmt.Sprintf("RNum %d %v", min, okMin))
 	default:
 		g.stmt("max", fmt.Sprintf("STerm (TMax %d %v)", col.ID, col.K.Signed()), fmt.Sprintf("RNum %d %v", max, okMax))
@@ -1494,6 +1518,9 @@ func (w *World) seedBlocks() {
 	dense := -1
 	if w.rng.Chance(w.prof.DensePct) {
 		dense = nb // the last block is completely full
+		if w.rng.Chance(w.prof.DenseFirstPct) {
+			dense = 0 // the first block is full: inserts allocate, and offsets are reused, in a later block
+		}
 		w.stats.Tall++
 	}
 	for b := 0; b <= nb; b++ {
@@ -1526,6 +1553,10 @@ func (w *World) seedBlocks() {
 		for _, col := range w.cols {
 			buf := commit.NewBuffer(64)
 			buf.Reset(col.Name)
+			if col.K != KKey && w.rng.Chance(20) {
+				w.holey[col.ID] = true
+				continue // this column holds no value in this block (aggregates and filters start in a later one)
+			}
 			for _, o := range offs {
 				if col.K == KKey && b == dense && o%1024 != 7 {
 					continue
@@ -1667,7 +1698,7 @@ func newWorld(seed uint64, idx int, prof Profile, stats *Stats, withReplica bool
 
 func newWorldHooked(seed uint64, idx int, prof Profile, stats *Stats, withReplica bool, cur *atomic.Pointer[World]) *World {
 	rng := NewRng(seed).Fork(uint64(idx))
-	w := &World{rng: rng, prof: prof, stats: stats, prev: map[uint32]rowObs{}, prevKeys: map[string]uint32{},
+	w := &World{rng: rng, prof: prof, stats: stats, holey: map[int]bool{}, prev: map[uint32]rowObs{}, prevKeys: map[string]uint32{},
 		trig: map[int][]string{}, nextID: 1, everDel: map[uint32]bool{}, lastIDs: map[uint32]uint64{}, allIDs: map[uint64]bool{}}
 	if cur != nil {
 		cur.Store(w)
@@ -1689,6 +1720,7 @@ func newWorldHooked(seed uint64, idx int, prof Profile, stats *Stats, withReplic
 		stats.Keyed++
 	}
 	kinds := w.kinds()
+	lateSorted := false
 	ncols := 2 + rng.Intn(4)
 	for i := 0; i < ncols; i++ {
 		w.addColumn(kinds[rng.Intn(len(kinds))])
@@ -1703,7 +1735,9 @@ func newWorldHooked(seed uint64, idx int, prof Profile, stats *Stats, withReplic
 		if rng.Chance(40) {
 			w.addComp("trigger")
 		}
-		if rng.Chance(40) || prof.ForceSorted {
+		// a sorted index built over rows that exist already (after the seeded blocks) or from the start
+		lateSorted = prof.SeedPct > 0 && rng.Chance(35) && (rng.Chance(40) || prof.ForceSorted)
+		if !lateSorted && (rng.Chance(40) || prof.ForceSorted) {
 			w.addComp("sorted")
 		}
 	}
@@ -1715,6 +1749,10 @@ func newWorldHooked(seed uint64, idx int, prof Profile, stats *Stats, withReplic
 			for i := 1 + rng.Intn(3); i > 0; i-- {
 				w.addComp("index")
 			}
+			stats.LateIndexes++
+		}
+		if lateSorted {
+			w.addComp("sorted")
 			stats.LateIndexes++
 		}
 	}
